@@ -12,6 +12,10 @@ St(j) == [c |-> j.c, aa |-> j.aa, en |-> j.en, aw |-> j.aw, retr |-> j.retr, ch 
 \* configuration part: everything but PWR_UP and the CE pin
 Cfg(s) == [s EXCEPT !.c = SetBit(s.c, 1, FALSE), !.ce = 0]
 Differs(a, b) == {f \in Fields : a[f] # b[f]}
+\* a network / mesh node is a receiver whenever it is not sending (C07): its block is entered in RX mode whatever role the
+\* radio had when it left; the role bit is not part of what is compared for such objects
+IsNode(o) == Traces[tid].kinds[o] \in {"net", "mesh"}
+CfgO(o, s) == IF IsNode(o) THEN [Cfg(s) EXCEPT !.c = SetBit(@, 0, TRUE)] ELSE Cfg(s)
 TInit == tid \in 1..Len(Traces) /\ l = 1 /\ verdict = <<"ok", "">> /\ est = <<>>
 Step == /\ verdict[1] = "ok" /\ l <= Len(Tr) /\ l' = l + 1 /\ tid' = tid
         /\ LET e == Tr[l] IN
@@ -19,8 +23,9 @@ Step == /\ verdict[1] = "ok" /\ l <= Len(Tr) /\ l' = l + 1 /\ tid' = tid
              [] e.k = "enter" ->
                   /\ est' = est
                   /\ verdict' = IF e.exc # "none" THEN <<"C09.Restored", "__enter__ raised " \o e.exc>>
-                                ELSE IF Differs(Cfg(St(e.post)), est[e.o]) # {}
-                                THEN <<"C09.Restored", ToString(Differs(Cfg(St(e.post)), est[e.o]))>>
+                                ELSE IF Differs(CfgO(e.o, St(e.post)), CfgO(e.o, est[e.o])) # {}
+                                THEN <<"C09.Restored", ToString(Differs(CfgO(e.o, St(e.post)), CfgO(e.o, est[e.o])))>>
+                                ELSE IF IsNode(e.o) /\ (Bit(e.post.c, 0) = 0 \/ e.post.ce = 0) THEN <<"C07.Listening", "a network node does not listen inside its block">>
                                 ELSE IF Bit(e.post.c, 1) = 0 THEN <<"C09.Restored", "radio not powered up inside the block">>
                                 ELSE <<"ok", "">>
              [] e.k = "exit" ->
